@@ -145,7 +145,7 @@ def exS : PS := { P := exFlagP, args := renderItems exItems }
 example : ItemsOK exS exItems :=
   ⟨by decide, by decide,
    by intro it h; simp [exItems, occsOf] at h; subst h; exact ⟨⟨by decide, by decide, by decide⟩, ⟨0,0,0⟩, by decide, fun _ => by decide⟩,
-   by intro w h; simp [exItems, wordsOf] at h; rcases h with h | h <;> (subst h; exact ⟨by decide, by decide⟩)⟩
+   by intro w h; simp [exItems, wordsOf] at h; rcases h with h | h <;> (subst h; exact Or.inl ⟨by decide, by decide⟩)⟩
 example : (applyItems default (fun _ => []) exS exItems).2 = none := by decide
 example : (applyItems default (fun _ => []) exS exItems).1.retargs = [B "a", B "b"] := by decide
 end GoFlags.C03
